@@ -401,10 +401,8 @@ package state
 //@     c08HasObj(st, a) ==> hastype(mapval(st.validatorObjects.dirty)[box(a)], *Validator) && c08Obj(st, a) != nil
 //@ spec func c08Exists(st: *StateDB, a: common.Address) bool = c08HasObj(st, a) && !c08Obj(st, a).deleted
 
-// RemoveValidator(a): the record stops existing and every bucket shrinks by exactly its contribution.
-// The statement demands "by its contribution IF IT EXISTED": for a record already marked deleted nothing may be subtracted.
-// The code subtracts unconditionally; that case is recorded in /verif/findings_proposed/C08.json (remove-twice) and the
-// clauses are split: proved for an existing record, pending for a deleted one.
+// RemoveValidator(a): an EXISTING record stops existing and every bucket shrinks by exactly its contribution; a record that is absent or
+// already marked deleted is refused and nothing changes (the "remove-twice" defect — statistics reduced again — was repaired in /repo a66ce44).
 //@ func (*StateDB).RemoveValidator props C08
 //@ panics none
 //@ requires c08StateWF(st) && c08ObjTyped(st, mainAddress)
@@ -420,16 +418,16 @@ package state
 //@     st.validatorJournal.entries, elems(st.validatorJournal.entries), mapof(st.validatorJournal.dirties),
 //@     all(big), k0.onlineCount, k0.offlineCount, k1.onlineCount, k1.offlineCount, k2.onlineCount, k2.offlineCount,
 //@     r1.onlineCount, r1.offlineCount, r2.onlineCount, r2.offlineCount, r3.onlineCount, r3.offlineCount
-//@ ensures [found] result <==> old(c08HasObj(st, mainAddress))
+//@ ensures [found] result <==> old(c08Exists(st, mainAddress))
 //@ ensures [gone]  !c08Exists(st, mainAddress)
-//@ ensures [kind-all]      result && !old(val.deleted) ==> c08Tot(k0) == c08Sub(old(c08Tot(k0)), old(c08InKind(val, params.KindValidator)))
-//@ ensures [kind-chamber]  result && !old(val.deleted) ==> c08Tot(k1) == c08Sub(old(c08Tot(k1)), old(c08InKind(val, params.KindChamber)))
-//@ ensures [kind-house]    result && !old(val.deleted) ==> c08Tot(k2) == c08Sub(old(c08Tot(k2)), old(c08InKind(val, params.KindHouse)))
-//@ ensures [role-chancellor] result && !old(val.deleted) ==> c08Tot(r1) == c08Sub(old(c08Tot(r1)), old(c08InRole(val, params.RoleChancellor)))
-//@ ensures [role-senator]  result && !old(val.deleted) ==> c08Tot(r2) == c08Sub(old(c08Tot(r2)), old(c08InRole(val, params.RoleSenator)))
-//@ ensures [role-house]    result && !old(val.deleted) ==> c08Tot(r3) == c08Sub(old(c08Tot(r3)), old(c08InRole(val, params.RoleHouse)))
-//@ // PENDING-FINDING: (findings_proposed/C08.json "remove-twice") removing a record that is already marked deleted must not change the statistics:
-//@ // ensures [already-deleted-noop] result && old(val.deleted) ==> c08Tot(k0) == old(c08Tot(k0)) && c08Tot(k1) == old(c08Tot(k1)) && c08Tot(k2) == old(c08Tot(k2)) && c08Tot(r1) == old(c08Tot(r1)) && c08Tot(r2) == old(c08Tot(r2)) && c08Tot(r3) == old(c08Tot(r3))
+//@ ensures [kind-all]      result ==> c08Tot(k0) == c08Sub(old(c08Tot(k0)), old(c08InKind(val, params.KindValidator)))
+//@ ensures [kind-chamber]  result ==> c08Tot(k1) == c08Sub(old(c08Tot(k1)), old(c08InKind(val, params.KindChamber)))
+//@ ensures [kind-house]    result ==> c08Tot(k2) == c08Sub(old(c08Tot(k2)), old(c08InKind(val, params.KindHouse)))
+//@ ensures [role-chancellor] result ==> c08Tot(r1) == c08Sub(old(c08Tot(r1)), old(c08InRole(val, params.RoleChancellor)))
+//@ ensures [role-senator]  result ==> c08Tot(r2) == c08Sub(old(c08Tot(r2)), old(c08InRole(val, params.RoleSenator)))
+//@ ensures [role-house]    result ==> c08Tot(r3) == c08Sub(old(c08Tot(r3)), old(c08InRole(val, params.RoleHouse)))
+//@ ensures [already-deleted-noop] old(c08HasObj(st, mainAddress)) && old(val.deleted) ==> !result && c08Tot(k0) == old(c08Tot(k0)) && c08Tot(k1) == old(c08Tot(k1)) &&
+//@     c08Tot(k2) == old(c08Tot(k2)) && c08Tot(r1) == old(c08Tot(r1)) && c08Tot(r2) == old(c08Tot(r2)) && c08Tot(r3) == old(c08Tot(r3))
 //@ ensures [absent-noop]   !result ==> c08Tot(k0) == old(c08Tot(k0)) && c08Tot(k1) == old(c08Tot(k1)) && c08Tot(k2) == old(c08Tot(k2)) &&
 //@                                     c08Tot(r1) == old(c08Tot(r1)) && c08Tot(r2) == old(c08Tot(r2)) && c08Tot(r3) == old(c08Tot(r3))
 //@ ensures [journalled] result ==> len(st.validatorJournal.entries) == old(len(st.validatorJournal.entries)) + 1
@@ -442,8 +440,8 @@ package state
 //@ modifies st.dbErr
 
 // deleteValidator (called by IntermediateRoot for records marked deleted or emptied): the address leaves the index, the record
-// stops existing, every bucket shrinks by the contribution of a record that still existed. For a record already marked deleted
-// by RemoveValidator the statistics were reduced then; the code reduces them again (findings_proposed/C08.json "remove-twice").
+// stops existing, every bucket shrinks by the contribution of a record that still existed; a record already marked deleted by
+// RemoveValidator was un-counted there and is not subtracted again (repaired in /repo a66ce44).
 //@ func (*StateDB).deleteValidator props C08
 //@ panics none
 //@ requires c08StateWF(st) && val != nil && c08RecOK(st, val) && c08Counted(c08Stat(st), val)
@@ -467,8 +465,8 @@ package state
 //@ ensures [role-chancellor] !old(val.deleted) ==> c08Tot(r1) == c08Sub(old(c08Tot(r1)), old(c08InRole(val, params.RoleChancellor)))
 //@ ensures [role-senator]  !old(val.deleted) ==> c08Tot(r2) == c08Sub(old(c08Tot(r2)), old(c08InRole(val, params.RoleSenator)))
 //@ ensures [role-house]    !old(val.deleted) ==> c08Tot(r3) == c08Sub(old(c08Tot(r3)), old(c08InRole(val, params.RoleHouse)))
-//@ // PENDING-FINDING: (findings_proposed/C08.json "remove-twice") a record already marked deleted was un-counted by RemoveValidator; deleting it must not subtract again:
-//@ // ensures [already-deleted-noop] old(val.deleted) ==> c08Tot(k0) == old(c08Tot(k0)) && c08Tot(k1) == old(c08Tot(k1)) && c08Tot(k2) == old(c08Tot(k2)) && c08Tot(r1) == old(c08Tot(r1)) && c08Tot(r2) == old(c08Tot(r2)) && c08Tot(r3) == old(c08Tot(r3))
+//@ ensures [already-deleted-noop] old(val.deleted) ==> c08Tot(k0) == old(c08Tot(k0)) && c08Tot(k1) == old(c08Tot(k1)) && c08Tot(k2) == old(c08Tot(k2)) &&
+//@     c08Tot(r1) == old(c08Tot(r1)) && c08Tot(r2) == old(c08Tot(r2)) && c08Tot(r3) == old(c08Tot(r3))
 
 // ---------------------------------------------------------------------------------------------------------------
 // Journal reverts: revert(op) is op's inverse on statistics, live objects and index.
@@ -525,21 +523,31 @@ package state
 //@ ensures [restored]      c08HasObj(s, c08AddrOf(oldVal)) && c08Obj(s, c08AddrOf(oldVal)) == oldVal && c08Indexed(s.validatorIndex, c08AddrOf(oldVal))
 //@ ensures [other-bigs-kept] c08BigsKept()
 
-// revert of a removal: the record exists again (not marked deleted) and is counted again.
-// The code only re-stores the pointer: `deleted` stays set and the statistics stay reduced — DESIGN §9 / findings_proposed/C08.json
-// "delete-revert"; proposed repair /verif/proposed_fixes/C08/delete_revert.diff.
+// revert of a removal: the record exists again (not marked deleted), is stored and indexed, and is counted again: every bucket grows by
+// exactly its contribution (the inverse of RemoveValidator; repaired in /repo 098ec1b).
 //@ func (validatorDeleteChange).revert props C08
 //@ panics none
 //@ requires c08StateWF(s) && ch.oldVal != nil && c08RecOK(s, ch.oldVal)
 //@ let oldVal = ch.oldVal
 //@ let k0 = c08K(c08Stat(s), 0)
+//@ let k1 = c08K(c08Stat(s), 1)
+//@ let k2 = c08K(c08Stat(s), 2)
+//@ let r1 = c08R(c08Stat(s), 1)
+//@ let r2 = c08R(c08Stat(s), 2)
+//@ let r3 = c08R(c08Stat(s), 3)
 //@ modifies s.validatorsStatModified, oldVal.consAddr, oldVal.deleted,
 //@     s.validatorObjects, mapof(s.validatorObjects.dirty), s.validatorIndex.data, mapof(s.validatorIndex.data.dirty),
-//@     all(big), all(ValKindStat.onlineCount), all(ValKindStat.offlineCount)
+//@     all(big), k0.onlineCount, k0.offlineCount, k1.onlineCount, k1.offlineCount, k2.onlineCount, k2.offlineCount,
+//@     r1.onlineCount, r1.offlineCount, r2.onlineCount, r2.offlineCount, r3.onlineCount, r3.offlineCount
 //@ ensures [restored] c08HasObj(s, c08AddrOf(oldVal)) && c08Obj(s, c08AddrOf(oldVal)) == oldVal && c08Indexed(s.validatorIndex, c08AddrOf(oldVal))
-//@ // PENDING-FINDING: (proposed_fixes/C08/delete_revert.diff) the restored record must exist again and be counted again:
-//@ // ensures [exists-again] !oldVal.deleted
-//@ // ensures [kind-all] c08Tot(k0) == c08Add(old(c08Tot(k0)), old(c08Contrib(oldVal)))
+//@ ensures [exists-again] !oldVal.deleted
+//@ ensures [kind-all]      c08Tot(k0) == c08Add(old(c08Tot(k0)), old(c08InKind(oldVal, params.KindValidator)))
+//@ ensures [kind-chamber]  c08Tot(k1) == c08Add(old(c08Tot(k1)), old(c08InKind(oldVal, params.KindChamber)))
+//@ ensures [kind-house]    c08Tot(k2) == c08Add(old(c08Tot(k2)), old(c08InKind(oldVal, params.KindHouse)))
+//@ ensures [role-chancellor] c08Tot(r1) == c08Add(old(c08Tot(r1)), old(c08InRole(oldVal, params.RoleChancellor)))
+//@ ensures [role-senator]  c08Tot(r2) == c08Add(old(c08Tot(r2)), old(c08InRole(oldVal, params.RoleSenator)))
+//@ ensures [role-house]    c08Tot(r3) == c08Add(old(c08Tot(r3)), old(c08InRole(oldVal, params.RoleHouse)))
+//@ ensures [other-bigs-kept] c08BigsKept()
 
 // ---------------------------------------------------------------------------------------------------------------
 // Clause 2 of C08 (totals) and clause 5 (the journal's old record is not mutated): the delegation list of a record.
@@ -662,6 +670,6 @@ package state
 //@ // ensures [flag] acts ==> (result3 == params.Create <==> !present) && (result3 == params.Delete <==> (present && big(result1.Token) == 0 && big(result1.Stake) == 0)) && result3 != params.Noop
 //@ ensures [stored] acts ==> c08HasObj(st, c08AddrOf(val)) && c08Obj(st, c08AddrOf(val)) == result0
 //@ ensures [list-sorted] acts ==> c08Sorted(result0.Delegations) && c08DlgsOK(result0.Delegations)
-//@ // PENDING-FINDING: (proposed_fixes/C08/partialcopy_delegations.diff; DESIGN §9 C08/C09) clause 5 — `val` is what the journal keeps as the old value
-//@ // (validatorUpdateChange.oldVal); its delegation list must not change. UpdateDelegationFrom(newVal) writes the array both records share:
-//@ // ensures [old-record-list-intact] elems(val.Delegations) == old(elems(val.Delegations))
+// Clause 5 — `val` is what the journal keeps as the old value (validatorUpdateChange.oldVal): its delegation list must not change.
+// (PartialCopy used to share the array that UpdateDelegationFrom(newVal) edits in place; repaired in /repo b2db95c.)
+//@ ensures [old-record-list-intact] val.Delegations == old(val.Delegations) && elems(val.Delegations) == old(elems(val.Delegations))
